@@ -708,6 +708,9 @@ def _coerce_to_pattern_ast_Dict(
             if (rest := value.id) == '_':
                 return "'**' key cannot be '_'"
 
+            if is_FST:
+                value.f._unparenthesize_grouping(False)  # cannot have pars
+
             continue
 
         elif rest:
@@ -776,6 +779,8 @@ def _coerce_to_pattern_ast_Call(
         return f"func must be Name or Attribute, not {func_cls.__name__}"
     elif func.id == '_':
         return "func Name cannot be '_'"
+    elif is_FST:
+        func.f._unparenthesize_grouping(False)  # cannot have pars
 
     patterns = []
     kwd_attrs = []
